@@ -1,11 +1,11 @@
 """C14 — constraint violations raise and leave the value unchanged."""
 from hist import *  # noqa
 
-THEOREMS = ["C14_unchanged", "C14_out_of_range_uint", "C14_other_width_refused", "C14_wrong_length", "C14_over_limit", "C14_index_out_of_bounds", "C14_pop_empty_append_full", "C14_invalid_selector", "C14_unchanged_on_chain", "C14_constructor_sound", "C14_constructor_rejects", "C14_constructor_accepts_iff", "C14_valid_denotes_itself"]
+THEOREMS = ["C14_unchanged", "C14_out_of_range_uint", "C14_other_width_refused", "C14_wrong_length", "C14_over_limit", "C14_index_out_of_bounds", "C14_pop_empty_append_full", "C14_invalid_selector", "C14_unchanged_on_chain", "C14_constructor_sound", "C14_constructor_rejects", "C14_constructor_accepts_iff", "C14_valid_denotes_itself", "C14_slice_all_or_nothing", "C14_element_set_progress"]
 PARTIAL = ["unchanged-on-failure is proved for top-level views / copies (C14_unchanged) and for child views with a valid hook chain of any depth (C14_unchanged_on_chain); commands through STALE child views (slot popped away, union switched) are outside both theorems (and outside the property's premise as the harness reads it, DESIGN C14). The constructor theorems characterise mk on the abstract argument language (AVal / canon); Python argument spellings are tied by the correspondence"]
 COQ_IMPORTS = ["RM.Types", "RM.ModelStore", "RMR.RunH"]
-COQ_FN = "RunH.run"
-COQ_CASE_TY = "RunH.case"
+COQ_FN = "RunH.run2"
+COQ_CASE_TY = "RunH.case2"
 CASE_TIMEOUT = 60
 SHARD = 20
 RULE = ("mutable types x histories in which ~40% of the commands are invalid (out-of-range integer, other-width uint, "
@@ -14,9 +14,10 @@ RULE = ("mutable types x histories in which ~40% of the commands are invalid (ou
         "views; after each command: raised-or-not and root+encoding of every held view are compared with the model, and "
         "(model-free) a failed command must leave every held view exactly as before; constructors of containers / lists / "
         "vectors given, for one field or element, a view of ANOTHER type whose content does not fit (wrong vector length, "
-        "over-limit list, out-of-range wider uint) must raise; slice assignments x[a:b] = values: valid ones equal the "
+        "over-limit list, out-of-range wider uint) must raise; slice assignments x[a:b] = values, at top level and through "
+        "a child view (compared with ModelStore.slice_set and, model-free:) valid ones equal the "
         "element-wise assignments, invalid ones (uncoercible element, wrong count, past the end) raise and leave "
-        "the view unchanged; non-trivial = >= 1 failing command")
+        "every held view unchanged; non-trivial = >= 1 failing command")
 
 
 def gen_inputs(ctx):
@@ -127,12 +128,25 @@ def gen_sliceset(ctx):
     rng = ctx.rng
     n = 200 if ctx.thorough else 50
     pool = [t for t in MUTABLE_TOP if t[0] in ("list", "vec", "bitlist", "bitvec")]
+    seqs = [t for t in pool if t[0] in ("list", "vec")]
     for q in range(n):
         t = pool[q % len(pool)]
+        outer, cmds, v0 = None, [], None
+        if q % 3 == 2:
+            # the slice is assigned through a CHILD view (field / element of an enclosing value): hook propagation
+            t = seqs[(q // 3) % len(seqs)]
+            outer = rng.choice([["cont", [["uint", 8], t, ["bool"]]], ["vec", t, 2], ["list", t, 3]])
         v = gen_value(rng, t, cap=8)
         ln = len(v)
         if ln < 2:
             continue
+        if outer is not None:
+            idx = 1
+            if outer[0] == "cont":
+                v0 = [gen_value(rng, outer[1][0]), v, gen_value(rng, ["bool"])]
+            else:
+                v0 = [gen_value(rng, t, cap=8), v]
+            cmds = [["get", 0, idx]]
         a = rng.randrange(0, ln - 1)
         b = rng.randrange(a + 1, ln + 1)
         e = ["bool"] if t[0] in ("bitlist", "bitvec") else t[1]
@@ -153,16 +167,29 @@ def gen_sliceset(ctx):
         if mode == "past_end":
             b = ln + rng.choice([1, 2])
             vals = [gen_arg(rng, e) for _ in range(b - a)]
-        yield {"t": t, "v": v, "cmds": [], "sliceset": {"a": a, "b": b, "vals": vals, "mode": mode}}
+        if outer is not None:
+            yield {"t": outer, "v": v0, "cmds": cmds, "sliceset": {"a": a, "b": b, "vals": vals, "mode": mode, "view": 1, "vt": t}}
+        else:
+            yield {"t": t, "v": v, "cmds": [], "sliceset": {"a": a, "b": b, "vals": vals, "mode": mode}}
 
 
 def build_sliceset(inp):
     t, v, ss = inp["t"], inp["v"], inp["sliceset"]
-    e = ["bool"] if t[0] in ("bitlist", "bitvec") else t[1]
+    u = ss.get("view", 0)
+    vt = ss.get("vt", t)                 # type of the view the slice is assigned through
+    e = ["bool"] if vt[0] in ("bitlist", "bitvec") else vt[1]
     why = None
+    # implementation run: the history (child view obtained), then the slice assignment; observed like a command
+    coq0, obs, _ = execute({"t": t, "v": v, "cmds": inp["cmds"]})
+    names = ["P:initial"] + ["P:step%d" % (i + 1) for i in range(len(obs) - 1)]
+    slice_obs = None
     try:
-        x, y = to_py(t, v), to_py(t, v)
-        before = (bytes(x.hash_tree_root()), bytes(x.encode_bytes()))
+        shx, shy = Shadow(t, v), Shadow(t, v)
+        for c in inp["cmds"]:
+            shx.run(c)
+            shy.run(c)
+        x, y = shx.views[u], shy.views[u]
+        before = shx.observe()
         try:
             pvals = [arg_py(e, a) for a in ss["vals"]]
         except Exception:
@@ -174,26 +201,33 @@ def build_sliceset(inp):
             x[ss["a"]:ss["b"]] = pvals
         except Exception as ex:  # noqa
             raised = ex
-        after = (bytes(x.hash_tree_root()), bytes(x.encode_bytes()))
+        after = shx.observe()
+        slice_obs = [raised is None, after]
         if ss["mode"] == "ok":
             # the same assignments one by one
             for k, pv in enumerate(pvals):
                 y[ss["a"] + k] = pv
             if raised is not None:
                 why = "a valid slice assignment raised %r" % (raised,)
-            elif after != (bytes(y.hash_tree_root()), bytes(y.encode_bytes())):
-                why = "slice assignment differs from assigning the same elements one by one"
+            elif after != shy.observe():
+                why = "slice assignment differs from assigning the same elements one by one (some held view)"
         else:
             if raised is None:
                 why = "an invalid slice assignment (%s) was accepted" % ss["mode"]
             elif after != before:
-                why = "a failed slice assignment (%s: %r) left a partial write behind" % (ss["mode"], raised)
+                why = "a failed slice assignment (%s: %r) left a partial write behind (some held view changed)" % (ss["mode"], raised)
     except StopIteration:
         why = None
     except Exception as ex:  # noqa
         why = "slice assignment scenario could not be run: %r" % (ex,)
-    coq, obs, _ = execute({"t": t, "v": v, "cmds": []})
-    c = Case(inp, coq, obs, ["P:initial"], nontrivial=True, kind="sliceset:" + ss["mode"])
+    if slice_obs is not None and vt[0] in ("list", "vec"):
+        # the model runs the same slice assignment (ModelStore.slice_set)
+        coq = "(%s, Some (%s, %s, %s, %s))" % (coq0, cnat(u), cZ(ss["a"]), cZ(ss["b"]), clist(arg_coq(e, a) for a in ss["vals"]))
+        obs = obs + [slice_obs]
+        names = names + ["P:slice_assignment"]
+    else:
+        coq = "(%s, None)" % coq0
+    c = Case(inp, coq, obs, names, nontrivial=True, kind="sliceset:" + ss["mode"] + (":child" if u else ""))
     c.why = why
     return c
 
@@ -203,10 +237,16 @@ def matches_known(case, match):
 
 
 def build(inp):
-    if "foreign" in inp:
-        return build_foreign(inp)
     if "sliceset" in inp:
         return build_sliceset(inp)
+    c = build_plain(inp)
+    c.coq = "(%s, None)" % c.coq          # RunH.case2: a history, optionally followed by a slice assignment
+    return c
+
+
+def build_plain(inp):
+    if "foreign" in inp:
+        return build_foreign(inp)
     try:
         to_py(inp["t"], inp["v"])
     except Exception:
